@@ -3,100 +3,51 @@
     ascending and duplicate free for EVERY input. *)
 From Coq Require Import String Ascii List Bool Arith NArith ZArith Lia Sorted.
 From Raven Require Import Base.GoStr Base.GoStrFacts Model.Search Model.SearchText Spec.Search Model.SearchClass
-  Proof.SearchTok Proof.SearchAtoms Proof.SearchDate Proof.SearchEval Proof.SearchExact.
+  Proof.SearchTok Proof.SearchAtoms Proof.SearchDate Proof.SearchEval Proof.SearchToks Proof.SearchExact.
 Import ListNotations.
 Local Open Scope Z_scope.
 Local Arguments Ascii.eqb : simpl never.
 
-Definition plain (c : ascii) : bool :=
-  negb (is_space c) && negb (Ascii.eqb c dq) && negb (Ascii.eqb c lpar) && negb (Ascii.eqb c rpar).
+(** ** the fuel [eval_tokens] supplies is enough for every program *)
+Lemma measure_app a b : tokens_measure (a ++ b) = (tokens_measure a + tokens_measure b)%nat.
+Proof. induction a as [|t a IH]; [reflexivity|]. cbn [app tokens_measure fold_right] in *. fold (tokens_measure (a ++ b)). fold (tokens_measure a). lia. Qed.
 
-Lemma plain_scan t : forallb plain t = true -> tok_scan t false = true.
+Lemma measure_join toks : (tokens_measure toks <= S (length (join toks [sp])))%nat.
 Proof.
-  induction t as [|c t IH]; intros H; [reflexivity|]. cbn [forallb] in H. apply andb_true_iff in H as [H1 H2].
-  unfold plain in H1. repeat (apply andb_true_iff in H1 as [H1 ?]).
-  repeat match goal with X : negb _ = true |- _ => apply negb_true_iff in X end.
-  cbn [tok_scan]. rewrite H3. rewrite H0, H, H1. cbn [negb andb]. now apply IH.
+  induction toks as [|t toks IH]; [cbn; lia|]. destruct toks as [|t2 toks].
+  - cbn. lia.
+  - change (join (t :: t2 :: toks) [sp]) with (t ++ sp :: join (t2 :: toks) [sp]).
+    rewrite app_length. cbn [length]. cbn [tokens_measure fold_right] in *. fold (tokens_measure (t2 :: toks)) in *. lia.
 Qed.
 
-Lemma plain_tok t : t <> [] -> forallb plain t = true -> tok_ok t = true.
-Proof. intros N H. destruct t; [congruence|]. now apply plain_scan. Qed.
-
-Lemma digits_plain d : forallb is_digit d = true -> forallb plain d = true.
+Lemma measure_pos k : (1 <= tokens_measure (key_tokens k))%nat.
 Proof.
-  apply forallb_impl. intros c H. destruct (digit_facts c H) as (_ & _ & _ & _ & _ & _ & A & B & C & D).
-  unfold plain. now rewrite A, B, C, D.
+  pose proof (key_tokens_nonempty k) as N. destruct (key_tokens k); [congruence|]. cbn. lia.
 Qed.
 
-Lemma quote_scan v : string_ok v = true -> tok_scan (v ++ [dq]) true = true.
+Lemma pdepth_measure l : Forall (fun k => (depth k + 1 <= tokens_measure (key_tokens k))%nat) l ->
+  (pdepth l <= tokens_measure (flat_map key_tokens l))%nat.
 Proof.
-  induction v as [|c v IH]; intros H; [reflexivity|]. cbn [string_ok forallb] in H. apply andb_true_iff in H as [H1 H2].
-  unfold qchar_ok in H1. repeat (apply andb_true_iff in H1 as [H1 ?]). apply negb_true_iff in H1.
-  cbn [app tok_scan]. rewrite H1. now apply IH.
+  induction 1 as [|k l H _ IH]; [cbn; lia|]. cbn [pdepth fold_right flat_map]. fold (pdepth l). rewrite measure_app. lia.
 Qed.
 
-Lemma quote_tok v : string_ok v = true -> tok_ok (quote v) = true.
-Proof. intros H. unfold quote, tok_ok. cbn [tok_scan]. rewrite Ascii.eqb_refl. cbn [negb]. now apply quote_scan. Qed.
-
-Lemma simple_toks_ok k mb : wf_key k = true -> simple_class k mb = None -> forallb tok_ok (key_tokens k) = true.
+Lemma depth_measure k : (depth k + 1 <= tokens_measure (key_tokens k))%nat.
 Proof.
-  intros W C. destruct k; cbn [simple_class] in C; try discriminate; cbn [key_tokens wf_key] in *.
-  - reflexivity.
-  - destruct f; reflexivity.
-  - destruct f; reflexivity.
-  - reflexivity.
-  - destruct (atom_facts w W) as (A1 & _ & _ & _ & A5). cbn [forallb]. rewrite (plain_tok w A1 A5). reflexivity.
-  - destruct (atom_facts w W) as (A1 & _ & _ & _ & A5). cbn [forallb]. rewrite (plain_tok w A1 A5). reflexivity.
-  - unfold set_class in C. destruct s as [|[[d|]|[a|] [b|]] [|? ?]]; try discriminate; unfold set_ok in W; cbn in W; rewrite andb_true_r in W.
-    + destruct (numeral_digits d W) as [Hd Hne]. unfold print_set. cbn [map join print_item print_snum forallb].
-      rewrite (plain_tok d Hne (digits_plain d Hd)). reflexivity.
-    + apply andb_true_iff in W as [Wa Wb]. destruct (numeral_digits a Wa) as [Hda Hnea]. destruct (numeral_digits b Wb) as [Hdb Hneb].
-      unfold print_set. cbn [map join print_item print_snum forallb]. rewrite (plain_tok (a ++ colon :: b)); [reflexivity | now destruct a |].
-      rewrite forallb_app, (digits_plain a Hda). cbn [forallb]. now rewrite (digits_plain b Hdb).
-  - unfold set_class in C. destruct s as [|[[d|]|[a|] [b|]] [|? ?]]; try discriminate; unfold set_ok in W; cbn in W; rewrite andb_true_r in W.
-    + destruct (numeral_digits d W) as [Hd Hne]. unfold print_set. cbn [map join print_item print_snum forallb].
-      rewrite (plain_tok d Hne (digits_plain d Hd)). reflexivity.
-    + apply andb_true_iff in W as [Wa Wb]. destruct (numeral_digits a Wa) as [Hda Hnea]. destruct (numeral_digits b Wb) as [Hdb Hneb].
-      unfold print_set. cbn [map join print_item print_snum forallb]. rewrite (plain_tok (a ++ colon :: b)); [reflexivity | now destruct a |].
-      rewrite forallb_app, (digits_plain a Hda). cbn [forallb]. now rewrite (digits_plain b Hdb).
-  - cbn [forallb]. rewrite (quote_tok v W). destruct h; reflexivity.
-  - apply andb_true_iff in W as [W1 W2]. cbn [forallb]. now rewrite (quote_tok f W1), (quote_tok v W2).
-  - cbn [forallb]. now rewrite (quote_tok v W).
-  - cbn [forallb]. now rewrite (quote_tok v W).
-  - destruct (numeral_digits n W) as [Hd Hne]. cbn [forallb]. now rewrite (plain_tok n Hne (digits_plain n Hd)).
-  - destruct (numeral_digits n W) as [Hd Hne]. cbn [forallb]. now rewrite (plain_tok n Hne (digits_plain n Hd)).
-  - cbn [forallb]. rewrite (plain_tok (print_date d)).
-    + destruct sent, c; reflexivity.
-    + destruct d as [[dd mon] yyyy]. unfold print_date. intros E. destruct dd; cbn [app] in E; discriminate E.
-    + exact (date_plain d W).
+  induction k as [k A | k IH | a b IHa IHb | l IH] using key_ind2.
+  - pose proof (measure_pos k). destruct k; try contradiction; cbn [depth]; lia.
+  - cbn [depth key_tokens]. change (tokens_measure (S_ "NOT" :: key_tokens k)) with (4 + tokens_measure (key_tokens k))%nat. lia.
+  - cbn [depth key_tokens]. change (tokens_measure (S_ "OR" :: key_tokens a ++ key_tokens b)) with (3 + tokens_measure (key_tokens a ++ key_tokens b))%nat.
+    rewrite measure_app. lia.
+  - pose proof (pdepth_measure l IH) as P. pose proof (measure_join (flat_map key_tokens l)) as J.
+    cbn [depth key_tokens]. fold (pdepth l). cbn [tokens_measure fold_right length]. rewrite app_length. cbn [length]. lia.
 Qed.
 
-Lemma key_toks_ok k mb : wf_key k = true -> key_class k mb = None -> forallb tok_ok (key_tokens k) = true.
+Lemma eval_tokens_prog nseq maxuid mb i sm ks :
+  In (i, sm) (numbered mb) -> mb_ok mb = true -> forallb wf_key ks = true -> classify ks mb = None ->
+  eval_tokens go_text (to_msg (i, sm)) (prog_tokens ks) = Some (spec_all nseq maxuid ks i sm).
 Proof.
-  intros W C. destruct k; try (apply simple_toks_ok with (mb := mb); assumption).
-  - cbn [key_class] in C. apply operand_inv in C as [_ C]. cbn [key_tokens wf_key forallb] in *.
-    now rewrite (simple_toks_ok k mb W C).
-  - cbn [key_class] in C. destruct (operand_class k1 mb) eqn:C1; [discriminate|].
-    apply operand_inv in C1 as [_ C1]. apply operand_inv in C as [_ C2].
-    cbn [wf_key] in W. apply andb_true_iff in W as [W1 W2].
-    cbn [key_tokens forallb]. rewrite forallb_app. now rewrite (simple_toks_ok k1 mb W1 C1), (simple_toks_ok k2 mb W2 C2).
-Qed.
-
-Lemma prog_toks_ok ks mb : forallb wf_key ks = true -> classify ks mb = None -> forallb tok_ok (prog_tokens ks) = true.
-Proof.
-  induction ks as [|k ks IH]; intros W C; [reflexivity|].
-  cbn [forallb] in W. apply andb_true_iff in W as [W1 W2].
-  cbn [classify] in C. destruct (key_class k mb) eqn:C1; [discriminate|].
-  unfold prog_tokens. cbn [flat_map]. rewrite forallb_app. rewrite (key_toks_ok k mb W1 C1). now apply IH.
-Qed.
-
-Lemma key_tokens_nonempty k : key_tokens k <> [].
-Proof. destruct k; discriminate. Qed.
-
-Lemma tok_ok_head c t : tok_ok (c :: t) = true -> is_space c = false.
-Proof.
-  unfold tok_ok. cbn [tok_scan]. destruct (Ascii.eqb_spec c dq) as [->|_]; [reflexivity|].
-  intros H. repeat (apply andb_true_iff in H as [H ?]). now apply negb_true_iff.
+  intros Hin Hmb W C. unfold eval_tokens. apply (prog_step nseq maxuid mb i sm Hin Hmb ks W C).
+  apply pdepth_measure. apply Forall_forall. intros k _. apply depth_measure.
 Qed.
 
 Lemma print_not_blank ks mb : wf_prog ks = true -> classify ks mb = None -> trim_space (print_prog ks) <> [].
@@ -126,16 +77,19 @@ Proof. induction l as [|[i m] l IH]; [reflexivity|]. cbn [map to_msg m_seq fst].
 Lemma map_uid_to_msg l : map m_uid (map to_msg l) = map (fun '(i, m) => s_uid m) l.
 Proof. induction l as [|[i m] l IH]; [reflexivity|]. cbn [map to_msg m_uid]. now rewrite IH. Qed.
 
+Lemma key_supported mb k : key_class k mb = None -> supported k = true.
+Proof.
+  induction k as [k A | k IH | a b IHa IHb | l IH] using key_ind2; intros C.
+  - rewrite (atomic_class k mb A) in C. destruct k; try reflexivity; try contradiction; discriminate.
+  - cbn [key_class supported] in *. auto.
+  - cbn [key_class supported] in *. destruct (key_class a mb) eqn:C1; [discriminate|]. now rewrite IHa, IHb.
+  - cbn [key_class supported] in *. apply first_class_none in C. apply forallb_forall. rewrite Forall_forall in *. auto.
+Qed.
+
 Lemma classify_supported ks mb : classify ks mb = None -> forallb supported ks = true.
 Proof.
   induction ks as [|k ks IH]; intros C; [reflexivity|]. cbn [classify] in C.
-  destruct (key_class k mb) eqn:C1; [discriminate|]. cbn [forallb]. rewrite (IH C), andb_true_r.
-  destruct k; try reflexivity; cbn [key_class] in C1.
-  - apply operand_inv in C1 as [A _]. cbn [supported]. destruct k; try reflexivity; discriminate.
-  - destruct (operand_class k1 mb) eqn:C2; [discriminate|]. apply operand_inv in C2 as [A1 _]. apply operand_inv in C1 as [A2 _].
-    cbn [supported]. destruct k1; try discriminate; destruct k2; try discriminate; reflexivity.
-  - discriminate.
-  - discriminate.
+  destruct (key_class k mb) eqn:C1; [discriminate|]. cbn [forallb]. now rewrite (key_supported mb k C1), (IH C).
 Qed.
 
 (** the evaluator on the printed program selects exactly the specified entries *)
